@@ -19,6 +19,7 @@ import collections
 import logging
 import os
 import sys
+import traceback
 from typing import Optional
 
 import tabulate
@@ -143,7 +144,13 @@ class BenchmarkActor(actor.RallyActor):
 
     @actor.no_retry("race control")  # pylint: disable=no-value-for-parameter
     def receiveMsg_TaskFinished(self, msg, sender):
-        self.coordinator.on_task_finished(msg.metrics)
+        try:
+            self.coordinator.on_task_finished(msg.metrics)
+        except BaseException:
+            # Don't rely on the driver to send the failure back to us; it might complete the benchmark in the meantime.
+            self.coordinator.error = True
+            self.send(self.start_sender, actor.BenchmarkFailure(traceback.format_exc()))
+            raise
         # We choose *NOT* to reset our own metrics store's timer as this one is only used to collect complete metrics records from
         # other stores (used by driver and mechanic). Hence there is no need to reset the timer in our own metrics store.
         self.send(self.mechanic, mechanic.ResetRelativeTime(msg.next_task_scheduled_in))
